@@ -216,6 +216,10 @@ def job_transient(j):
 
 
 def run(tier, seed, rep):
+    # histories of public API calls and device changes on one object; the poll that follows each history is judged
+    from .. import api_sessions
+    _api = api_sessions.explore(tier, seed, {'C14'})
+    rep.add_many([v for v in _api['violations'] if v['prop'] == 'C14'])
     from .c15 import transient_configs
     for n, res in pmap(job_transient, [(c,) for c in transient_configs() if c['family'] == 'ET']):
         rep.add_many(res)
@@ -248,7 +252,7 @@ def run(tier, seed, rep):
         reads += nr
         states |= sts
         rep.add_many(res)
-    cov = dict(states=len(states), transitions=reads, executions=total, traces_validated_against_impl=total,
+    cov = dict(api_session_histories=_api['histories'], api_session_states=_api['states'], states=len(states), transitions=reads, executions=total, traces_validated_against_impl=total,
                configurations=total, dynamic_histories=ndyn, polls_with_one_request_rejected=nbusy, instrumented_reads=reads, exhaustive=True,
                bound='every model configuration of C15 (tags x rated power x refused subsets x battery) x every sensor of '
                      'every block; each ProtocolResponse.read is observed (position, requested, returned) and cross-checked '
@@ -262,6 +266,11 @@ def run(tier, seed, rep):
 
 
 def replay(r):
+    if r.get('part') == 'api-session':
+        from .. import api_sessions
+        out = api_sessions.replay(r)
+        out['violations'] = [m for m in out['violations'] if m[0] == 'C14']
+        return out
     cfg = r['cfg']
     cfg['refused'] = tuple(cfg['refused'])
     if 'busy' in r:
